@@ -1633,12 +1633,13 @@ def newline_use_discipline(prog, rep, R):
         rep.check(canon(gb, {"k": "copy", "place": {"l": 0, "p": []}}) in ("arg1.newline_str",), R, "getter-returns-field", "get_newline_str does not return self.newline_str")
 
 
-def multiline_measure(prog, rep, R):
-    """Whole-token lengths never measure a multi-line token: the column after such a token is the length of its last line (`lines()`)."""
-    TL = OLF + "TokenLength"
-    # ---------------------------------------------------------------- C09.e whole-token lengths never measure a multi-line token
+# token kinds whose text can contain a line break (the lexer's block scanners and the multi-line literal scanner)
+MULTILINE_CAPABLE = [("TextLiteral", "MultiLine"), ("Comment", "MultilineBlock"), ("CompilerDirective", None), ("ConditionalDirective", None)]
+
+
+def last_line_measurers(prog):
+    """M-functions: bodies of the wrapper that look at the last line (`lines()`, a search for '\n') of a token under a token-type test"""
     from progress import dominating_variant_facts
-    # M-functions: bodies of the wrapper that look at the last line (`lines()`) of a token under a TextLiteral/Comment type test
     mfun = set()
 
     def cuts_lines(b3, depth=0, seen=()):
@@ -1672,6 +1673,45 @@ def multiline_measure(prog, rep, R):
             fx = dominating_variant_facts(prog, b2, c.bb)
             if any("get_token_type(" in f[0] and "TextLiteral" in f[2] for f in fx):
                 mfun.add(b2.npath)
+    return mfun
+
+
+def line_spanning_kinds_measured(prog, rep, R):
+    """C11.k — "if the result for a wider wrap_column already fits within a narrower one, the narrower value gives the identical
+    result": the width the wrapper assumes after a token that spans lines is the width of its last line."""
+    mfun = last_line_measurers(prog)
+    if not rep.check(len(mfun) >= 1, R, "anchor:last-line-measure", "no function of the wrapper measures the last line of a multi-line token any more"):
+        return
+    # sibling completeness: every kind of token that can contain a line break is measured by its last line.  The lexer's block scanners
+    # (block comments and `{$..}` / `(*$..*)` directives) accept line breaks inside the token, and so do multi-line string literals.
+    measured = set()
+    for m in sorted(mfun):
+        mb = prog.body(m)
+        try:
+            tm = Table(prog, mb, inline=0)
+        except TooComplex:
+            continue
+        for cons, res in tm.rows:
+            if render(res) == "None" or render(res).startswith("call:from_residual"):
+                continue
+            outer = [c[2] for c in cons if c[0] == "is" and "get_token_type(" in str(c[1]) and str(c[1]).endswith(")")]
+            inner = [c[2] for c in cons if c[0] == "is" and "get_token_type(" in str(c[1]) and re.search(r"\)@\w+\.0$", str(c[1]))]
+            for o in outer:
+                measured.add((o, inner[0] if inner else None))
+    missing = [k for k in MULTILINE_CAPABLE if k not in measured and (k[0], None) not in measured]
+    rep.check(not missing, R, "every-line-spanning-kind-is-measured-by-its-last-line",
+              "token kinds that can contain a line break but are measured by their whole length (all lines and their terminators counted as one line): %s — `Foo(aaaa, {$I⏎ x.inc} bbbb);` is laid out "
+              "as if the directive were 13 columns wide: it is wrapped at a wrap_column its own one-line result fits in, and differently for CRLF and LF inside the directive" % [("%s(%s)" % k if k[1] else k[0]) for k in missing],
+              instance={"measured_by_last_line": sorted("%s(%s)" % k if k[1] else k[0] for k in measured), "line_spanning_kinds": ["%s(%s)" % k if k[1] else k[0] for k in MULTILINE_CAPABLE]})
+
+
+
+def multiline_measure(prog, rep, R):
+    """Whole-token lengths never measure a multi-line token: the column after such a token is the length of its last line (`lines()`)."""
+    TL = OLF + "TokenLength"
+    # ---------------------------------------------------------------- C09.e whole-token lengths never measure a multi-line token
+    from progress import dominating_variant_facts
+    mfun = last_line_measurers(prog)
     rep.check(len(mfun) >= 1, R, "anchor:last-line-measure", "no function of the wrapper measures the last line of a multi-line token any more", instance={"last_line_measurers": sorted(short(m) for m in mfun)})
 
     def override_sites(b2):
@@ -2063,8 +2103,40 @@ def alternatives_are_not_narrowed(prog, rep, R):
     rep.floor(R, "Potentials values built in the wrapper", n, 15)
 
 
+def search_prunes_by_penalty_alone(prog, rep, R):
+    """C11.j — "if every line fits at some wrap_column then every line also fits at any larger one": the search may discard a partial
+    layout only when nothing later can make it the better one.  find_optimal_solution keeps, per token at which a break is required,
+    the lowest penalty seen so far in a table, and drops every partial layout that arrives there with a higher one — comparing
+    penalties only, not the state the rest of the line depends on (whether a child layout is still open on the parent's line).  Each
+    such table is a place where the layout that fits is thrown away in favour of a cheaper prefix whose rest overflows; the number
+    of tables is the reviewed quantity."""
+    fos = prog.body(OLF_SEARCH)
+    if not rep.check(fos is not None, R, "anchor:find_optimal_solution", "find_optimal_solution not found"):
+        return
+    tables = {}
+    for b2 in [fos] + list(prog.closures_of(OLF_SEARCH)):
+        for bb, i, st in b2.stmts():
+            if st["k"] == "assign" and st["rv"]["k"] == "binop" and st["rv"]["op"] in ("Gt", "Lt", "Ge", "Le"):
+                a, c = canon(b2, st["rv"]["a"]), canon(b2, st["rv"]["b"])
+                for x, y in ((a, c), (c, a)):
+                    m = re.match(r"^index\((from_elem\(.*?\)),", y)
+                    if m and ("penalty" in x or "into_iter(" in x):
+                        tables.setdefault(m.group(1), []).append(abs(st.get("line", 0)))
+    n = len(tables)
+    rep.analysed["penalty_tables"] = {k[:80]: v for k, v in tables.items()}
+    if n:
+        rep.fail(R, "penalty-only-pruning:%d-table%s" % (n, "" if n == 1 else "s"),
+                 "find_optimal_solution discards partial layouts by comparing their penalty with the best one seen at the same required break (%d table%s, compared at lines %s): the layout "
+                 "whose rest fits can be dropped for a cheaper one whose rest overflows, so a line that fits at one wrap_column overflows at a larger one"
+                 % (n, "" if n == 1 else "s", sorted(l for v in tables.values() for l in v)), where="%s:%d" % (fos.file, fos.line))
+    else:
+        rep.ok(R, {"penalty_tables": 0})
+
+
 def check_c11(prog, rep, tier, cfg):
     child_line_memo_key_is_complete(prog, rep, "C11.h")
+    search_prunes_by_penalty_alone(prog, rep, "C11.j")
+    line_spanning_kinds_measured(prog, rep, "C11.k")
     alternatives_are_not_narrowed(prog, rep, "C11.i")
     # C11.g — the widths the wrapper compares with wrap_column are the widths that are emitted: every pass that can replace a token's
     # text is registered before the wrapping pass (shared with C03.c)
